@@ -112,7 +112,15 @@ def parallel_problem(fx, b, pushed, over):
             elif nm.endswith(("::insert", "::extend", "::append", "::pop", "::remove", "::truncate", "::clear", "::retain", "::swap_remove", "::drain", "::resize", "::dedup")):
                 return "`%s` is also changed through %s" % (pushed, nm)
     if not pushes:
-        return "no push to `%s` found (the collection is built some other way: audit again)" % pushed
+        # built in one expression: `over.iter().map(..).collect::<Result<Vec<_>, _>>()?` yields one element per element or fails as a whole
+        import zipalign
+        chain, names = zipalign.chain_calls(b, {"k": "copy", "p": {"l": lp_, "p": []}})
+        if lo_ in chain and any(nm.endswith("Iterator::collect") for nm in names):
+            bad = sorted(nm for nm in names if any(nm.endswith(d) for d in DROPPING))
+            if bad:
+                return "`%s` is collected from `%s` through %s" % (pushed, over, bad)
+            return None
+        return "no push to `%s` found and it is not collected from `%s` (the collection is built some other way: audit again)" % (pushed, over)
     nl = loops.natural_loops(b)
     inner = [lp for lp in nl if all(p in lp[1] for p in pushes)]
     if not inner:
